@@ -117,6 +117,17 @@ GLOBAL_NAME_STYLES = [lambda n: "sim" + n.capitalize(), lambda n: n.capitalize()
 ALIAS_NAMES = ["Color", "Weights", "Real", "Mat", "Block4", "index_t", "ColorTexture", "Smp"]
 
 
+def alias_resources(S):
+    """declare every texture / sampler type of the module through an `alias`"""
+    S.setdefault("aliases", [])
+    n = 0
+    for g in S["globals"]:
+        if g["ty"]["k"] in ("tex", "sampler") and not any(a["ty"] == g["ty"] for a in S["aliases"]):
+            S["aliases"].append({"name": "%sAlias%d" % ("Tex" if g["ty"]["k"] == "tex" else "Smp", n), "ty": g["ty"]})
+            n += 1
+    return S
+
+
 def add_aliases(S, rng, k=2):
     """declare `alias` names for some non-struct member / variable types: naga gives such types a name, but they are not structs"""
     seen = []
